@@ -31,6 +31,20 @@ OBLIGATIONS = [
     'C03.emit_names_wf_partial', 'C03.emit_names_collision_counterexamples',
 ]
 
+OBLIGATIONS_EMIT = [
+    'C03Emit.emit_wf_flat', 'C03Emit.emit_checkE_flat', 'C03Emit.emit_check_flat', 'C03Emit.real_text_wf', 'C03Emit.facts',
+    'C03Emit.dedup_find', 'C03Emit.dedup_names_nodup', 'C03Emit.dedup_mem', 'C03Emit.regModule_once', 'C03Emit.regModule_body',
+    'C03Emit.names_top_nodup', 'C03Emit.top_once', 'C03Emit.rhs_ids', 'C03Emit.uses_top', 'C03Emit.top_kw', 'C03Emit.top_decl',
+    'C03Emit.lookup_reg', 'C03Emit.width_net', 'C03Emit.width_clk', 'C03Emit.inst_reg', 'C03Emit.top_insts', 'C03Emit.drivers_top',
+    'C03Emit.drv_len', 'C03Emit.count_childOut', 'C03Emit.top_drivers', 'C03Emit.emit_header', 'C03Emit.emit_body', 'C03Emit.emit_pdef',
+    'C03Emit.emit_wf_hier', 'C03Emit.emit_checkE_hier', 'C03Emit.emit_check_hier', 'C03Emit.real_text_wf_hier', 'C03Emit.mfacts',
+    'C03Emit.gk_targets', 'C03Emit.gk_ids', 'C03Emit.binChain_ids', 'C03Emit.decls_md', 'C03Emit.declNames_md', 'C03Emit.instNames_md',
+    'C03Emit.names_md_nodup', 'C03Emit.md_once', 'C03Emit.uses_md', 'C03Emit.md_kw', 'C03Emit.md_decl', 'C03Emit.lookup_emit',
+    'C03Emit.width_net_md', 'C03Emit.width_clk_md', 'C03Emit.lookup_reg_h', 'C03Emit.inst_reg_h', 'C03Emit.lookup_sub', 'C03Emit.inst_sub',
+    'C03Emit.md_insts', 'C03Emit.sub_conn_drivers', 'C03Emit.ci_drivers', 'C03Emit.drivers_md', 'C03Emit.md_drv_len', 'C03Emit.md_drivers',
+    'C03Emit.hemit_header', 'C03Emit.hemit_body', 'C03Emit.hemit_pdef',
+]
+
 DRIVER = 'Drv/C03.lean'
 
 # proposals for /verif/known_findings.json (the integrator merges them); applied locally until they are listed there.
@@ -281,6 +295,149 @@ def canon_decl_order(m):
     return m[:4] + [['items'] + decl + rest]
 
 
+# ------------------------------------------------------------------------------------------------ proved by the emitter-model theorem
+def _sx(text):
+    """tiny S-expression reader"""
+    toks = re.findall(r'[()]|[^\s()]+', text)
+    pos = [0]
+
+    def rd():
+        t = toks[pos[0]]
+        pos[0] += 1
+        if t == '(':
+            out = []
+            while toks[pos[0]] != ')':
+                out.append(rd())
+            pos[0] += 1
+            return out
+        return t
+    return rd()
+
+
+def _sxs(t):
+    return '(' + ' '.join(_sxs(x) for x in t) + ')' if isinstance(t, list) else t
+
+
+def export_hs(hsrc_text):
+    """C01's nested description `(hsrc depth clk (widths …) <mod> (order …))` -> the level-free list of lean/Py4hwV/Verilog/EmitMD.lean:
+    `(hs clk (widths …) (mods …))`, modules in emission order (a module, then for each child its register module / its sub-module
+    followed by that module's own children)"""
+    t = _sx(hsrc_text)
+    clk, widths, top = t[2], t[3], t[4]
+    mods = []
+
+    def has_clk(mod):
+        return any(c[0] == 'reg' or (c[0] == 'sub' and has_clk(c[2])) for c in mod[6][1:])
+
+    def walk(mod):
+        kids = []
+        for c in mod[6][1:]:
+            if c[0] == 'sub':
+                b = c[2]
+                kids.append(['sub', c[1], b[1], '1' if has_clk(b) else '0', b[3], b[4]])
+            else:
+                kids.append(c)
+        mods.append(['str', mod[1], mod[2], mod[3], mod[4], mod[5], ['children'] + kids])
+        for c in mod[6][1:]:
+            if c[0] == 'reg':
+                mods.append(['regm'] + c[1:])
+            elif c[0] == 'sub':
+                walk(c[2])
+    walk(top)
+    return _sxs(['hs', clk, widths, ['mods'] + mods])
+
+
+class EmitCov:
+    """for which designs of the streams is well-formedness of the real text PROVED (not only checked)?
+       flat:  C01's exporter imports `FlatM.FlatSrc` S from the live circuit; lean/Drv/C03Emit.lean decides parsed text = S.emit,
+              S.check and C03Emit.namesOKb S  => `C03Emit.real_text_wf` applies to this text;
+       hier:  (figure only) C01's hierarchical exporter + lean/Drv/C01Hier.lean decide text = HierSrc.emit and HierSrc.check: the
+              real text is the model emitter's output, the well-formedness theorem for that model is not proved yet."""
+
+    def __init__(self, res):
+        self.res = res
+        self.flat, self.fmeta, self.hier, self.hmeta, self.hs, self.hsmeta = [], [], [], [], [], []
+        self.total = self.proved = self.hier_ok = self.hs_ok = self.proved_any = 0
+        try:
+            import c01
+            self.c01 = c01
+        except Exception as e:
+            self.c01 = None
+            res.notes.append(f'harness/c01.py not importable ({type(e).__name__}: {e}): emit-model coverage not measured')
+
+    def add(self, d, text, ctx):
+        if self.c01 is None:
+            return
+        res, c01 = self.res, self.c01
+        self.total += 1
+        stream = ctx['label']['stream'].split(':')[0]
+        try:
+            tree = vparse.parse(P.strip_attributes(text))       # the exporter's names carry the real instance-unique suffixes
+        except vparse.VParseError:
+            return
+        try:
+            with contextlib.redirect_stdout(io.StringIO()):
+                src = c01.flat_src(d, tree)
+            self.flat += ['design ' + vparse.sexp(tree), 'src ' + src, 'check']
+            self.fmeta.append((ctx, stream))
+        except c01.NotFlat as e:
+            res.hist('emit_wf_flat', 'not-covered: ' + re.sub(r'kind \w+', 'child kind outside FlatSrc', str(e))[:60])
+        except Exception as e:
+            res.hist('emit_wf_flat', 'not-covered: export ' + type(e).__name__)
+        try:
+            with contextlib.redirect_stdout(io.StringIO()):
+                hs = c01.HierExporter(d, tree).export()
+            self.hs += ['design ' + vparse.sexp(tree), 'hs ' + export_hs(hs), 'hcheck']
+            self.hsmeta.append((ctx, stream))
+        except c01.NotCovered as e:
+            res.hist('emit_model_hier', 'not-covered: ' + re.sub(r'kind \w+', 'child kind outside HierSrc', str(e).split(' / ')[0])[:60])
+        except Exception as e:
+            res.hist('emit_model_hier', 'not-covered: export ' + type(e).__name__)
+
+    def run(self):
+        res = self.res
+        if self.flat:
+            try:
+                out = run_driver('Drv/C03Emit.lean', self.flat)
+                for (ctx, stream), o in zip(self.fmeta, out[2::3]):
+                    if o == 'proved':
+                        ctx['proved'] = True
+                        self.proved += 1
+                        self.proved_any += 1
+                        res.hist('emit_wf_flat', 'PROVED: text == FlatSrc.emit, FlatSrc.check, namesOKb')
+                        res.hist('emit_wf_flat_by_stream', stream)
+                    else:
+                        res.hist('emit_wf_flat', 'not-covered: ' + o[:70])
+            except ToolFailure as e:
+                res.broken.append(('correspondence', 'emit-flat-driver', str(e)[:300]))
+        if self.hs:
+            try:
+                out = run_driver('Drv/C03Emit.lean', self.hs)
+                for (ctx, stream), o in zip(self.hsmeta, out[2::3]):
+                    if o == 'proved':
+                        self.hs_ok += 1
+                        if not ctx.get('proved'):
+                            self.proved_any += 1
+                        ctx['proved'] = True
+                        res.hist('emit_wf_hier', 'PROVED: text == HSrc.emit and HSrc.okb')
+                        res.hist('emit_wf_hier_by_stream', stream)
+                    else:
+                        res.hist('emit_wf_hier', 'not-covered: ' + re.sub(r'_[0-9a-f]{9,}', '_<id>', o)[:70])
+            except ToolFailure as e:
+                res.broken.append(('correspondence', 'emit-hier-driver', str(e)[:300]))
+        self.flat, self.fmeta, self.hier, self.hmeta, self.hs, self.hsmeta = [], [], [], [], [], []
+
+    def summary(self):
+        t = max(self.total, 1)
+        return dict(designs_with_live_circuit=self.total,
+                    proved_by_emit_wf_flat=self.proved, flat_fraction=round(self.proved / t, 4),
+                    proved_by_emit_wf_hier=self.hs_ok, hier_fraction=round(self.hs_ok / t, 4),
+                    proved_well_formed=self.proved_any, proved_fraction=round(self.proved_any / t, 4),
+                    note='proved = parsed real text equals the model emitter output for the description imported from the live circuit '
+                         'and the description passes the decidable hypotheses of C03Emit.emit_wf_flat / emit_wf_hier; every design is '
+                         'ALSO checked by WF.checkE (a proved design with checker errors is reported as a tooling inconsistency)')
+
+
 # ------------------------------------------------------------------------------------------------ the pipeline
 class Pipeline:
     def __init__(self, res, kws):
@@ -289,6 +446,7 @@ class Pipeline:
         self.todo = []           # callbacks (answer-index based)
         self.pair_cache = {}
         self.after = []          # callbacks(out) for non-design requests
+        self.emitcov = EmitCov(res)
         self.n_designs = 0
 
     def ask(self, line):
@@ -343,6 +501,8 @@ class Pipeline:
             res.hist('constructs', k, v)
         res.hist('modules_per_design', min(len(tree) - 1, 20))
         ctx['tree'] = tree
+        if job.get('design') is not None:
+            self.emitcov.add(job['design'], text, ctx)
         ext = job.get('ext', '(design)')
         ctx['check_ix'] = self.ask(f'check (env {vparse.sexp(tree)} {ext} {P.pdefs_sexp(pdefs)})')
         # second clause: every pair (first emitted, other object) under one module name, each generated alone
@@ -391,11 +551,16 @@ class Pipeline:
         except ToolFailure as e:
             res.broken.append(('correspondence', 'driver', str(e)[:300]))
             out = None
+        self.emitcov.run()
         if out is not None:
             for f in self.after:
                 f(out)
             for ctx in self.todo:
                 self.classify(ctx, out)
+                if ctx.get('proved') and out[ctx['check_ix']] != 'ok':
+                    # the theorem says this text is well formed, the checker reports errors: tooling inconsistency
+                    res.broken.append(('correspondence', 'emit_wf_flat-vs-checker',
+                                       dict(checker=out[ctx['check_ix']][:300], text=ctx['text'][:800], **ctx['label'])))
         self.lines, self.todo, self.after, self.pair_cache = [], [], [], {}
 
     def maybe_flush(self, limit=2500):
@@ -519,7 +684,7 @@ class Pipeline:
 
 # ------------------------------------------------------------------------------------------------ design streams
 def job_of(d):
-    return dict(kind=d['kind'], desc=d['desc'], gen_root=d['top'], dut=d['top'])
+    return dict(kind=d['kind'], desc=d['desc'], gen_root=d['top'], dut=d['top'], design=d)
 
 
 def tryadd(pipe, res, f):
@@ -566,7 +731,7 @@ def stream_gv(pipe, res, rng, n_plan, n_lib):
         except Exception as e:
             res.hist('constructor_refusals', f'plan:{type(e).__name__}')
             continue
-        pipe.add(dict(kind='plan', desc=d['desc'], gen_root=d['top'], dut=d['top']))
+        pipe.add(dict(kind='plan', desc=d['desc'], gen_root=d['top'], dut=d['top'], design=d))
         pipe.maybe_flush()
     for i in range(n_lib):
         r = rng.fork(('gvlib', i))
@@ -575,7 +740,7 @@ def stream_gv(pipe, res, rng, n_plan, n_lib):
         except Exception as e:
             res.hist('constructor_refusals', f'gvlib:{type(e).__name__}')
             continue
-        pipe.add(dict(kind='gv' + d['kind'], desc=d.get('desc'), gen_root=d['top'], dut=d['top']))
+        pipe.add(dict(kind='gv' + d['kind'], desc=d.get('desc'), gen_root=d['top'], dut=d['top'], design=d))
 
 
 def stream_names(pipe, res, rng, kws, tier):
@@ -993,6 +1158,12 @@ def run_corpus(pipe, res):
 def main(res, tier, rng, replay):
     # S0: nothing of C03 depends on Gen/*: the artefacts regenerated from the working tree are the emitted texts (S2)
     res.proof_stage('Py4hwV.Props.C03', OBLIGATIONS)
+    n1, d1, ax1 = res.cov['obligations'], res.cov['discharged'], set(res.cov.get('axioms_seen', []))
+    # second proof stage: the universal theorem for the C01 emitter model (flat designs)
+    res.proof_stage('Py4hwV.Props.C03Emit', OBLIGATIONS_EMIT)
+    res.cov['obligations'], res.cov['discharged'] = n1 + res.cov['obligations'], d1 + res.cov['discharged']
+    res.cov['axioms_seen'] = sorted(ax1 | set(res.cov.get('axioms_seen', [])))
+    res.cov['checker_cmd'] = 'cd lean && lake build Py4hwV.Props.C03 Py4hwV.Props.C03Emit && #print axioms on every obligation'
     kws = lean_keywords()
     pipe = Pipeline(res, kws)
     q = tier == 'quick'
@@ -1011,6 +1182,7 @@ def main(res, tier, rng, replay):
     stream_hier(pipe, res, rng.fork('hier'), 80 if q else 3000)
     pipe.flush()
     res.cov['designs'] = pipe.n_designs
+    res.cov['emit_theorem_coverage'] = pipe.emitcov.summary()
     res.cov['rule'] = ('one evaluation = one design whose REAL emitted text (VerilogGenerator.getVerilogForHierarchy) was parsed, round-trip validated and '
                        'checked by WF.checkE in Lean, plus one pair request per object emitted under an already used module name; distinct = distinct '
                        'canonical text (instance-unique module suffixes renumbered). Streams: every library block at sampled widths/options, random '
